@@ -1061,3 +1061,113 @@ def c17(run):
     for ln, (t, why) in sorted(bad.items()):
         sc = json.loads(scen[ln - 1])
         run.violation("purity|" + _re.sub(r"\d+", "N", str(why))[:120], why, {"do": "purity", "threads": sc["threads"], "calls": [[c["f"], c["x"]] for c in sc["calls"]]})
+
+
+# ------------------------------------------------------------------------------------------------
+# selftest: negative controls of the binding (DESIGN.md 3.6)
+
+def selftest():
+    """For every trace specification: validate a small known-good trace (must be accepted), then
+    corrupt one recorded field of one event and require TLC to reject exactly that event."""
+    import cscript
+    import copy
+    import synthgen
+    vlib.build_harness()
+    wd = vlib.workdir("selftest")
+    H = histgen
+    base = H.base_packets()
+    pkts = ['{"pkt":%s}' % json.dumps(b, separators=(",", ":")) for b in base]
+    failures = []
+
+    def case(name, module, cfg, tag, events, target, mutate, seq=False):
+        good = os.path.join(wd, name + "_good.ndjson")
+        with open(good, "w") as f:
+            f.write("\n".join(events) + "\n")
+        val = (lambda p: vlib.validate_seq(p, module, cfg, wd, len(events), tag)) if seq else (lambda p: vlib.validate(p, module, cfg, wd, len(events), {tag}, shards=1))
+        bad, _ = val(good)
+        if bad:
+            failures.append("%s: the unmodified trace is rejected at %s" % (name, sorted(bad)[:3]))
+            return
+        e = json.loads(events[target])
+        mutate(e)
+        ev2 = list(events)
+        ev2[target] = json.dumps(e, separators=(",", ":"))
+        badp = os.path.join(wd, name + "_bad.ndjson")
+        with open(badp, "w") as f:
+            f.write("\n".join(ev2) + "\n")
+        bad, _ = val(badp)
+        if (not seq and set(bad) != {target + 1}) or (seq and not bad):
+            failures.append("%s: corrupted event %d, TLC rejected %s" % (name, target + 1, sorted(bad)))
+        else:
+            log("[selftest] %-28s corrupted event rejected: %s" % (name, vlib.shorten(str(list(bad.values())[0][1]), 90)))
+
+    def setf(path, fn):
+        def m(e):
+            x = e
+            for k in path[:-1]:
+                x = x[k]
+            x[path[-1]] = fn(x[path[-1]])
+        return m
+
+    obs, _ = vlib.drive(vlib.with_do(pkts, "parse"), wd, "st_parse")
+    case("C01 bytes changed", "Trace_Parse", "Trace_Parse_C01.cfg", "VIOLATION-C01", obs, 2, setf(["same"], lambda v: False))
+    case("C02 verdict", "Trace_Parse", "Trace_Parse_C02.cfg", "VIOLATION-C02", obs, 3, setf(["res"], lambda v: "err"))
+    case("C18 steps", "Trace_Parse", "Trace_Parse_C18.cfg", "VIOLATION-C18", obs, 1, setf(["steps"], lambda v: 100000))
+    obs, _ = vlib.drive(vlib.with_do(pkts, "read"), wd, "st_read")
+    case("C03 ttl accessor", "Trace_Read", "Trace_Read_C03.cfg", "VIOLATION-C03", obs, 0, setf(["an", 0, "ttl", 3], lambda v: (v + 1) % 256))
+    case("C03 missing yield", "Trace_Read", "Trace_Read_C03.cfg", "VIOLATION-C03", obs, 1, setf(["ar"], lambda v: v[:-1]))
+    case("C04 flag bit", "Trace_Read", "Trace_Read_C04.cfg", "VIOLATION-C04", obs, 2, setf(["sum", "flo"], lambda v: v ^ 0x20))
+    case("C04 edns offset", "Trace_Read", "Trace_Read_C04.cfg", "VIOLATION-C04", obs, 0, setf(["view", "oedns"], lambda v: [v[0] + 1]))
+    obs, _ = vlib.drive(vlib.with_do(pkts, "uncompress", '"all_offsets":true,'), wd, "st_unc")
+    case("C05 output byte", "Trace_Transform", "Trace_Transform_C05.cfg", "VIOLATION-C05", obs, 0, setf(["out", "b", 13], lambda v: v ^ 1))
+    case("C05 carried offset", "Trace_Transform", "Trace_Transform_C05.cfg", "VIOLATION-C05", obs, 2, setf(["carry"], lambda v: [dict(c, new=c["new"] + (1 if c["k"] == "ok" and c["ref"] > 12 else 0)) for c in v]))
+    obs, _ = vlib.drive(vlib.with_do([pkts[1], pkts[5], pkts[6]], "compress"), wd, "st_comp")
+    case("C06 output name byte", "Trace_Transform", "Trace_Transform_C06.cfg", "VIOLATION-C06", obs, 0, setf(["out", "b", 13], lambda v: 120))
+    obs, _ = vlib.drive([json.dumps({"do": "rename", "pkt": b, "target": H.name("net"), "source": H.name("ex"), "suffix": True}) for b in base[:4]], wd, "st_ren")
+    case("C07 renamed name byte", "Trace_Transform", "Trace_Transform_C07.cfg", "VIOLATION-C07", obs, 1, setf(["out", "b", 15], lambda v: 122))
+    hs = [json.dumps({"do": "hdr", "w": w, "tid": 7, "xfl": 0x8000, "fa": [[0x20, 0], [0xffff, 0xffff]], "rv": [3, 255], "ov": [5], "tv": [9]}) for w in (0, 0x8180, 0x7805)]
+    obs, _ = vlib.drive(hs, wd, "st_hdr")
+    case("C12 resulting word", "Trace_Header", "Trace_Header_C12.cfg", "VIOLATION-C12", obs, 2, setf(["flags", 0, 2], lambda v: v ^ 0x0800))
+    ns = [json.dumps({"do": "nametext", "text": H.L(t), "zone": z}) for t in ("a.b", "www.Example.com.", "x") for z in ([], H.name("z"))]
+    obs, _ = vlib.drive(ns, wd, "st_names")
+    case("C14 wire byte", "Trace_Names", "Trace_Names_C14.cfg", "VIOLATION-C14", obs, 0, setf(["wire", 1], lambda v: 98))
+    case("C14 read-back", "Trace_Names", "Trace_Names_C14.cfg", "VIOLATION-C14", obs, 2, setf(["rb"], lambda v: v[:-1]))
+    ss = dedupe(synthgen.scenarios(1, "quick"))[:12]
+    obs, _ = vlib.drive(ss, wd, "st_synth")
+    case("C13 wire byte", "Trace_Synth", "Trace_Synth_C13.cfg", "VIOLATION-C13", obs, 3, setf(["wire"], lambda v: v[:-1] + [(v[-1] + 1) % 256]))
+    hist = [H.scen(base[0], [{"op": "read_question"}, H.cursor_op("AN", False, 0, [("set_raw_name", H.name("xYz", "fr")), ("next", [])]), H.op_insert("NS", 1), H.op_insert("AN", 8)])]
+    groups = vlib.drive_groups(hist)
+    ev = [l for g in groups for l in g]
+    case("C08 view offset", "Trace_History", "Trace_History.cfg", "VIOLATION-HIST", ev, 2, setf(["view", "oar"], lambda v: [v[0] + 2]))
+    case("C08 stale cache", "Trace_History", "Trace_History.cfg", "VIOLATION-HIST", ev, 2, setf(["view", "cached"], lambda v: [{"raw0": [1, 120, 0], "type": 1, "class": 1}]))
+    case("C09 effect", "Trace_History", "Trace_History.cfg", "VIOLATION-HIST", ev, 2, setf(["o", "rec", "r", "ttl"], lambda v: [0, 0, 0, 78]))
+    case("C10 failed op changed", "Trace_History", "Trace_History.cfg", "VIOLATION-HIST", ev, 3, setf(["post", 1], lambda v: v ^ 1))
+    ws = [w for w in H.walks("quick") if '"sec":"AN"' in w][40:46]
+    obs, _ = vlib.drive(ws, wd, "st_walk")
+    target = next(i for i, o in enumerate(obs) if len(json.loads(o)["ys"]) >= 2)
+    case("C11 dropped yield", "Trace_Walk", "Trace_Walk_C11.cfg", "VIOLATION-C11", obs, target, setf(["ys"], lambda v: v[:1]))
+    sched = [json.dumps({"do": "threads", "n": 2, "program": ["F", "R", "F", "R"], "order": o}) for o in ([1, 2, 2, 1, 1, 2, 2, 1], [1, 1, 2, 2, 1, 1, 2, 2])]
+    obs, _ = vlib.drive(sched, wd, "st_sched")
+    def swap(e):
+        e["steps"][3]["text"] = e["steps"][1]["text"]
+    case("C16 other thread's text", "Trace_Slots", "Trace_Slots_C16.cfg", "VIOLATION-C16", obs, 0, swap)
+    pool = purity_pool()
+    pur = [json.dumps({"do": "purity", "threads": 1, "calls": [pool[1]]}), json.dumps({"do": "purity", "threads": 1, "calls": [pool[0], pool[1]]})]
+    obs, _ = vlib.drive(pur, wd, "st_pur")
+    case("C17 differing repeat", "Purity", "Trace_Purity.cfg", "VIOLATION-C17", obs, 1, setf(["calls", 1, "y", "b", 20], lambda v: v ^ 1), seq=True)
+    if not build_cdrive():
+        scr = cscript.scripts(1, "quick")[:2]
+        nat = vlib.drive_groups([json.dumps({"do": "cscript", "lines": s}) for s in scr])
+        cg, _ = run_cdrive(scr)
+        ev = ['{"k":"pair","c":%s,"native":%s}' % (c, n) for ng, g in zip(nat, cg) for n, c in zip(ng, g) if '"op":"pkt"' not in n]
+        case("C15 return value", "Trace_CAbi", "Trace_CAbi_C15.cfg", "VIOLATION-C15", ev, 4, setf(["c", "ret"], lambda v: v - 1))
+        case("C15 state after call", "Trace_CAbi", "Trace_CAbi_C15.cfg", "VIOLATION-C15", ev, 6, setf(["c", "state", "bytes", 3], lambda v: v ^ 1))
+        case("C15 canary", "Trace_CAbi", "Trace_CAbi_C15.cfg", "VIOLATION-C15", ev, 3, setf(["c", "mem"], lambda v: False))
+    import shutil
+    if failures:
+        for f in failures:
+            print("SELFTEST FAILED: " + f)
+        return 2
+    shutil.rmtree(wd, ignore_errors=True)
+    print("selftest ok")
+    return 0
